@@ -89,6 +89,11 @@ for f in $FLAVOURS; do
   esac
 done
 
-# keep only the three newest builds
-ls -1dt "$CACHE"/*/ 2>/dev/null | tail -n +4 | while read -r d; do [ "$d" != "$B/" ] && rm -rf "$d"; done
+# Remove old builds, but never one that a check may still be using: a build is touched every time a check
+# starts on it and is only removed when it is neither among the six newest nor used within the last six hours.
+touch "$B/.used"
+ls -1dt "$CACHE"/*/ 2>/dev/null | tail -n +7 | while read -r d; do
+  [ "$d" = "$B/" ] && continue
+  if [ -z "$(find "$d.used" -mmin -360 2>/dev/null)" ]; then rm -rf "$d"; fi
+done
 echo "$B"
